@@ -118,6 +118,11 @@ func ruleFuncValuesOfCorrectType(observers *Events, addError AddErrFunc, disable
 			}
 
 		case ast.ObjectValue:
+			if value.Definition.Kind != ast.InputObject {
+				// an input object literal where a built-in scalar or an enum is expected
+				unexpectedTypeMessage(addError, value)
+				return
+			}
 
 			for _, field := range value.Definition.Fields {
 				if field.Type.NonNull {
